@@ -85,6 +85,13 @@ def write_store(np, d, model, st, factor):
     table = np.array(st['table'], dtype=np.int32).reshape(len(st['ids']), -1)
     np.save(os.path.join(d, STORE_FILES[2]), ids)
     np.save(os.path.join(d, STORE_FILES[1]), table)
+    pre = st.get('pre')
+    if pre == 'prev':         # stage 6: the fixed-name waveforms file already exported once, with another unit factor
+        export_waveforms(os.path.join(d, STORE_FILES[0]), model.traces, model.spike_samples[ids], table,
+                         n_samples_waveforms=model.n_samples_waveforms, sample2unit=3.0)
+    elif pre:                 # ... or a complete file of the same shape / dtype holding other numbers
+        np.save(os.path.join(d, STORE_FILES[0]),
+                np.full((len(ids), model.n_samples_waveforms, table.shape[1]), 7.0))
     export_waveforms(os.path.join(d, STORE_FILES[0]), model.traces, model.spike_samples[ids], table,
                      n_samples_waveforms=model.n_samples_waveforms, sample2unit=factor)
 
